@@ -187,6 +187,7 @@ def sched_case(
     pure_kind_rate: float = 0.0,
     max_mc: int = 5,
     min_mc: int = 1,
+    profile_rate: float = 0.0,
 ) -> Dict[str, Any]:
     mode = draw(st.sampled_from(list(modes)))
     res_pool = list(resources)
@@ -228,8 +229,12 @@ def sched_case(
         case["failing"] = draw(st.lists(st.sampled_from(pool), min_size=1, max_size=k, unique=True))
     if sel_on:
         case["sel"] = draw(selection_strategy(P))
+    if profile_rate and draw(st.floats(0, 1)) < profile_rate:
+        case["profile"] = True  # cfg.TAWAZI_PROFILE_ALL_NODES: every node runs inside the profiling context
     if config_rate and draw(st.floats(0, 1)) < config_rate:
         case["via"] = "config"
+        if draw(st.booleans()):
+            case["build_mc"] = draw(st.integers(1, 5))
     return case
 
 
